@@ -71,7 +71,7 @@ def TU(name, src, cflags=None, pre=(), post=(), defs=(), extra_text='', native_l
 def G(id, tu, fn, props, ins=(), setup='', call=None, ret=None, pre=None, post=None,
       replace=(), loops=False, split=None, solvers=('cadical',), timeout=300, flags=(),
       min_obl=1, must=('postcondition',), unwind=None, bounded=None, enforce=True,
-      native=True, tier='quick', body=None, extra_replace=(), note='', nondet_static=False, needs=None, contract=None, weight=1,
+      native=True, tier='quick', body=None, extra_replace=(), note='', nondet_static=False, needs=None, contract=None, weight=1, optional=False,
       sweep=None, reach=True, defs=(), direct=False, fix=None, loopinv=None, reach_hint='', kind='contract', files=(), whitelist=()):
     """Register an obligation group.
     ins: list of (ctype, name) scalar harness inputs (named in_*).
@@ -86,7 +86,7 @@ def G(id, tu, fn, props, ins=(), setup='', call=None, ret=None, pre=None, post=N
                       ret=ret, pre=pre, post=post, replace=list(replace), loops=loops, split=split,
                       solvers=list(solvers), timeout=timeout, flags=list(flags), min_obl=min_obl,
                       must=list(must), unwind=unwind, bounded=bounded, enforce=enforce, native=native,
-                      tier=tier, body=body, note=note, nondet_static=nondet_static, sweep=sweep, needs=needs or {}, contract=contract, weight=weight,
+                      tier=tier, body=body, note=note, nondet_static=nondet_static, sweep=sweep, needs=needs or {}, contract=contract, weight=weight, optional=optional,
                       reach=reach, defs=list(defs), direct=direct, fix=dict(fix or {}), loopinv=loopinv, reach_hint=reach_hint, kind=kind, files=list(files), whitelist=list(whitelist))
     ORDER.append(id)
 
@@ -526,8 +526,9 @@ def run_group(ctx, g, obj):
         return run_undefined(ctx, g, res, t_start)
 
     def build(entry, noloops=False):
-        a = os.path.join(ctx.work, '%s_%s.a.gb' % (entry, c))
-        b = os.path.join(ctx.work, '%s_%s.b.gb' % (entry, c))
+        # the bounded variant without loop contracts may be built while the loop-contract binary is in use: separate files
+        a = os.path.join(ctx.work, '%s_%s%s.a.gb' % (entry, c, '.nl' if noloops else ''))
+        b = os.path.join(ctx.work, '%s_%s%s.b.gb' % (entry, c, '.nl' if noloops else ''))
         rc, out, _ = run(['goto-cc', '--function', entry, obj, '-o', a], timeout=120)
         if rc != 0:
             return None, 'link failed: ' + out[-1500:]
@@ -593,9 +594,35 @@ def run_group(ctx, g, obj):
     solvers = list(g['solvers'])
     if ctx.tier == 'thorough' and len(solvers) < 2:
         solvers = solvers + [s for s in ('cadical', 'cvc5') if s not in solvers][:1]
-    need_agree = 2 if ctx.tier == 'thorough' else 1
+    # portfolio: the first definite answer wins; if more than one back end finishes their answers must agree (checked below)
+    need_agree = 1
 
     procs = {}
+    # loop-contract groups: a bounded run without the loop contracts (unwind 30) is started alongside as a bug finder, so that a
+    # change that makes the inductive proof run into its time-out is still reported within the quick budget; its answer is only
+    # used when it FAILS a postcondition (and then only as a violation if the counterexample replays natively)
+    fbproc = None
+    fb_started = False
+    if g['loopinv'] and not fallback:
+        with CPU_SEM:
+            fbbin, _ = build('h_' + c, noloops=True)
+        if fbbin is not None:
+            fbproc = Proc(['cbmc', fbbin, '--json-ui', '--trace', '--object-bits', '12', '--unwind', '30'] + g['flags'] + SOLVER_ARGS['cadical'], ctx.work, MEM_KB)
+            fb_started = True
+
+    def fb_result(out, rc):
+        fres, _, fst = parse_cbmc_json(out) if rc in (0, 10) else (None, None, None)
+        ffail = [r for r in (fres or []) if r['status'] == 'FAILURE' and 'postcondition' in (r['property'] or '')]
+        if not ffail:
+            return None
+        res['fallback'] = 'bounded run (unwind 30) without loop contracts found a counterexample before the loop-contract proof finished'
+        res['status'] = 'fail'
+        res['solver'] = 'cadical'
+        res['results'] = [dict(property=r['property'], status=r['status'], description=r['description'], line=r['loc'].get('line'),
+                               file=r['loc'].get('file'), inputs=trace_inputs(r['trace'])) for r in ffail]
+        res['failed'] = res['results']
+        res['secs'] = time.time() - t_start
+        return res
     # weight: CPU slots reserved per back end; memory-hungry groups (5-10 GB each) reserve several so that fewer of them run side by side
     slots = CPU_SEM.acquire(min(NCPU, len(solvers) * g.get('weight', 1)))
     for s in solvers:
@@ -604,6 +631,15 @@ def run_group(ctx, g, obj):
     deadline = time.time() + g['timeout'] * (3 if ctx.tier == 'thorough' else 1)
     try:
         while procs and time.time() < deadline:
+            if fbproc is not None and (fbproc.poll() is not None or time.time() - fbproc.t0 > 300):
+                if fbproc.poll() is not None:
+                    fbr = fb_result(fbproc.output(), fbproc.poll())
+                    if fbr is not None:
+                        fbproc = None
+                        return fbr
+                else:
+                    fbproc.kill()
+                fbproc = None
             for s, p in list(procs.items()):
                 rc = p.poll()
                 if rc is not None:
@@ -627,11 +663,13 @@ def run_group(ctx, g, obj):
     finally:
         for s, p in procs.items():
             p.kill()
+        if fbproc is not None:
+            fbproc.kill()
         CPU_SEM.release(slots)
 
     definite = [s for s, d in done.items() if d['kind'] == 'result']
     res['secs'] = time.time() - t_start
-    if not definite and g['loopinv'] and not fallback:
+    if not definite and g['loopinv'] and not fallback and not fb_started:
         # the loop-contract proof did not finish (e.g. the loop structure changed so that the invariants sit on the wrong
         # loops): bounded search without loop contracts for a counterexample that replays on the real code
         with CPU_SEM:
@@ -847,6 +885,7 @@ def check_property(pid, tier, seed, verbose=False, only=None, keep=False):
     replay_dir = os.path.join(ROOT, 'replays')
     os.makedirs(replay_dir, exist_ok=True)
     undecided, violations, kf_lines = [], [], []
+    optional_undecided = []
     results = []
     if not only:
         for f in glob.glob(os.path.join(replay_dir, '%s_*.json' % pid)):
@@ -912,7 +951,12 @@ def check_property(pid, tier, seed, verbose=False, only=None, keep=False):
         # ---- failures -> violations with replay
         for r in results:
             if r['status'] == 'undecided':
-                undecided.append('%s: %s' % (r['id'], r['reason']))
+                if GROUPS[r['id']].get('optional') and 'no back end answered' in (r['reason'] or ''):
+                    # registered as "did not discharge within the budget when it was written": a timeout is reported in the
+                    # evidence and on stdout, it does not change the exit status (nothing was found, nothing is claimed)
+                    optional_undecided.append('%s: %s' % (r['id'], r['reason']))
+                else:
+                    undecided.append('%s: %s' % (r['id'], r['reason']))
             if r['status'] != 'fail':
                 continue
             g = GROUPS[r['id']]
@@ -988,6 +1032,7 @@ def check_property(pid, tier, seed, verbose=False, only=None, keep=False):
         known_findings=[l for l in kf_lines],
         contracts_assumed_from_other_checks=meta.get('closure_stop', {}),
         contracts_assumed_in_this_tier_enforced_in_thorough_tier=deferred,
+        optional_groups_not_decided=optional_undecided,
         group_notes={g['id']: g['note'] for g in groups if g.get('note')},
         exhaustive=False,
     )
@@ -1004,6 +1049,8 @@ def check_property(pid, tier, seed, verbose=False, only=None, keep=False):
         print(l)
     print('%s tier=%s groups=%d obligations=%d discharged=%d bounded_groups=%d wall=%.0fs' %
           (pid, tier, len(results), n_obl, n_dis, len(bnd_groups), time.time() - t0))
+    for u in optional_undecided:
+        print('NOT-DECIDED (optional group, not counted): ' + u[:300])
     if violations:
         for (path, found, obl, gid) in violations:
             print('VIOLATION property=%s replay=%s obligation=%s group=%s%s' % (pid, path, obl, gid, '' if found else ' no-failing-input-found'))
